@@ -302,4 +302,6 @@ func runC07(cx *ctx) {
 			return hparseCase("mutated", b, rr.Intn(5), note)
 		})
 	}
+	// hand-built inputs (c07_extra.go)
+	c07Extra(cx)
 }
